@@ -54,6 +54,26 @@ static void map_add_file_sectors(size_t ei, sector_count_type begin, sector_coun
                            (g_e < ei ==> (MS.file_e_begin == data_origin_lba + ENT_START(g_e) && \
                                           MS.file_e_end == data_origin_lba + ENT_START(g_e) + (ENT_LENGTH(g_e) + 255ul) / 256ul))) \
   __CPROVER_decreases(self->entries_n - ei)
+/* catalogs = root.get_catalog_in_disc_order(): std::vector<std::vector<CatalogEntry>>, one inner vector per catalogue
+   fragment (two on Watford DFS); sizes and entries are harness arrays */
+#define CATS_MAX 2
+#define CAT_ENTRIES_MAX 31
+static size_t cats_n;
+static size_t h_cat_size[CATS_MAX];
+static struct CatalogEntry h_cat_entries[CATS_MAX][CAT_ENTRIES_MAX];
+static size_t cat_size(size_t c) { __CPROVER_assert(c < cats_n, "C07: vector index is below size()"); return c < CATS_MAX ? h_cat_size[c] : 0; }
+static const struct CatalogEntry *cats_at(size_t c, size_t e)
+{
+  __CPROVER_assert(c < cats_n && e < h_cat_size[c < CATS_MAX ? c : 0], "C07: vector index is below size()");
+  return &h_cat_entries[c < CATS_MAX ? c : 0][e < CAT_ENTRIES_MAX ? e : 0];
+}
+static const struct CatalogEntry *cats_back(size_t c)            /* back(): undefined on an empty vector */
+{
+  __CPROVER_assert(c < cats_n, "C07: vector index is below size()");
+  __CPROVER_assert(h_cat_size[c < CATS_MAX ? c : 0] > 0, "C07: back() on an empty vector is undefined");
+  return &h_cat_entries[c < CATS_MAX ? c : 0][h_cat_size[c < CATS_MAX ? c : 0] > 0 ? h_cat_size[c < CATS_MAX ? c : 0] - 1 : 0];
+}
+#include "space_start_sec_of_next.inc"
 #include "space_entry_gap.inc"
 #include "Catalog_map_sectors.inc"
 
@@ -77,6 +97,20 @@ __CPROVER_ensures(g_c < self->catalog_sectors ==> (MS.cat_c_seen && MS.cat_c_val
 __CPROVER_ensures(g_e < self->entries_n ==> (MS.file_e_seen && MS.file_e_begin == data_origin_lba + ENT_START(g_e) &&
                                              MS.file_e_end == data_origin_lba + ENT_START(g_e) + (ENT_LENGTH(g_e) + 255ul) / 256ul));
 
+/* C14/C07: the start sector of the file that follows (catalogue c, entry e) on the disc: the previous entry of the same
+   catalogue; for entry 0 the last entry of the next NON-EMPTY catalogue; the end of the disc when there is none.  Defined
+   for every catalogue shape, including empty fragments (a Watford disc with fewer than 32 files) */
+#define E_START(c, e) ((sector_count_type)((unsigned long)h_cat_entries[c][e].raw_metadata_[7] | (((unsigned long)h_cat_entries[c][e].raw_metadata_[6] & 3ul) << 8)))
+static sector_count_type space_start_sec_of_next(const struct SpaceRoot *root, unsigned int catalog, unsigned int entry)
+__CPROVER_requires(__CPROVER_is_fresh(root, sizeof(*root)) && cats_n >= 1 && cats_n <= CATS_MAX && h_cat_size[0] <= CAT_ENTRIES_MAX && h_cat_size[1] <= CAT_ENTRIES_MAX)
+__CPROVER_requires(catalog < cats_n && entry <= h_cat_size[catalog])
+__CPROVER_assigns()
+__CPROVER_ensures(entry > 0 ==> __CPROVER_return_value == E_START(catalog, entry - 1))
+__CPROVER_ensures((entry == 0 && catalog + 1 < cats_n && h_cat_size[catalog + 1 < CATS_MAX ? catalog + 1 : 0] > 0) ==>
+                  __CPROVER_return_value == E_START(catalog + 1 < CATS_MAX ? catalog + 1 : 0, h_cat_size[catalog + 1 < CATS_MAX ? catalog + 1 : 0] - 1))
+__CPROVER_ensures((entry == 0 && (catalog + 1 >= cats_n || h_cat_size[catalog + 1 < CATS_MAX ? catalog + 1 : 0] == 0)) ==> __CPROVER_return_value == root->total_sectors);
+
+void h_start_sec_of_next(void) { const struct SpaceRoot *r; space_start_sec_of_next(r, nondet_uint(), nondet_uint()); }
 void h_entry_gap(void)
 {
   const struct CatalogEntry *ce;
